@@ -1,4 +1,6 @@
 import GeffProofs.MockEdges
+import GeffProofs.MockData
+import Gen.MockForward
 /-! # C20 — mock-data generators honour their parameters and emit valid geffs
 
 Property theorems only.  `Gen.MockEdges.gen` is the edge generator of
@@ -50,8 +52,8 @@ theorem C20_possible_is_max (directed : Bool) (n : Nat) (es : List (Nat × Nat))
     | false =>
       simp only [key, Bool.false_eq_true, if_false, all, List.mem_map]
       rcases Nat.lt_or_ge a b with hab | hab
-      · exact ⟨(a, b), mem_fwd.2 ⟨hab, h.2.1⟩, by simp [Nat.min_def, Nat.max_def]; omega⟩
-      · exact ⟨(b, a), mem_fwd.2 ⟨by omega, h.1⟩, by simp [Nat.min_def, Nat.max_def]; omega⟩
+      · exact ⟨(a, b), mem_fwd.2 ⟨hab, h.2.1⟩, rfl⟩
+      · exact ⟨(b, a), mem_fwd.2 ⟨by omega, h.1⟩, by simp only [Nat.min_comm, Nat.max_comm]⟩
   have := length_le_of_nodup_subset hn hsub
   simpa [length_all] using this
 
@@ -80,5 +82,467 @@ example : Gen.MockEdges.gen false 3 3 = .ok [(0, 1), (1, 2), (0, 2)] := by decid
 example : Gen.MockEdges.gen true 3 100 = .ok [(0, 1), (1, 2), (0, 2), (1, 0), (2, 1), (2, 0)] := by decide
 example : EdgesSpec true 3 100 [(0, 1), (1, 2), (0, 2), (1, 0), (2, 1), (2, 0)] :=
   (edgesOk_iff _ _ _ _).1 (by decide)
+
+
+/-! ## The rest of `create_dummy_in_mem_geff` and the forwarding helpers -/
+open Geff.MockData
+
+/-- the axes requested by the four `include_*` flags, in the generator's order -/
+def axisNames (p : Params) : List String :=
+  (if p.t then ["t"] else []) ++ (if p.z then ["z"] else []) ++ (if p.y then ["y"] else []) ++
+  (if p.x then ["x"] else [])
+
+/-- the coordinate property of axis `name`: requested dtype (time dtype for `t`, position dtype
+otherwise), one value per node, dense, fixed-length -/
+def AxisProp (p : Params) (name : String) (kv : String × PropOut) : Prop :=
+  kv.1 = name ∧ kv.2.dtype = npName (if name = "t" then p.timeDtype else p.posDtype) ∧
+  kv.2.len = p.numNodes ∧ kv.2.varlength = false ∧ kv.2.missing = none
+
+/-- the property an `extra_*_props` item asks for: its name, one value per node/edge, dense,
+fixed-length, the requested dtype — or the caller's own array, untouched -/
+def Requested (len : Nat) (item : Option String × Req) (kv : String × PropOut) : Prop :=
+  item.1 = some kv.1 ∧ kv.2.len = len ∧ kv.2.varlength = false ∧ kv.2.missing = none ∧
+  ((∃ d, item.2 = .auto d ∧ d ∈ dtypeStrs ∧ kv.2.dtype = npName d) ∨
+   (∃ d tag, item.2 = .arr d len tag ∧ kv.2.dtype = d ∧ kv.2.values = .given tag))
+
+/-- all node-side / edge-side property names a parameter record asks for -/
+def nodeNames (p : Params) : List String :=
+  axisNames p ++ (itemsOf p.extraNode).filterMap (·.1) ++ (if p.vl then ["var_length"] else []) ++
+  (if p.ms then ["sparse_prop"] else [])
+
+def edgeNames (p : Params) : List String :=
+  (itemsOf p.extraEdge).filterMap (·.1) ++ (if p.ms then ["sparse_prop"] else [])
+
+/-- the props-metadata dict describes the property dict entry by entry, in the same order -/
+def Describes (md : Dict MetaOut) (props : Dict PropOut) : Prop := List.Forall₂ DescribesOne md props
+
+theorem axisTriples_names (p : Params) : (axisTriples p).map (·.1) = axisNames p := by
+  unfold axisTriples axisNames
+  cases p.t <;> cases p.z <;> cases p.y <;> cases p.x <;> rfl
+
+theorem axisTriples_spec (p : Params) :
+    List.Forall₂ (AxisProp p) (axisNames p) ((axisTriples p).map tripleProp) := by
+  unfold axisTriples axisNames
+  cases p.t <;> cases p.z <;> cases p.y <;> cases p.x <;>
+    simp [AxisProp, tripleProp, axisTriple]
+
+theorem requested_of_stepOut {len : Nat} {items : List (Option String × Req)} {ts : List Triple}
+    (h : List.Forall₂ (fun it t => stepOut len it = .ok t) items ts) :
+    List.Forall₂ (Requested len) items (ts.map tripleProp) := by
+  induction h with
+  | nil => exact List.Forall₂.nil
+  | cons hs _ ih =>
+    obtain ⟨h1, h2, h3, h4, _, _, h7⟩ := stepOut_ok hs
+    exact List.Forall₂.cons ⟨h1, h2, h3, h4, h7⟩ ih
+
+/-- **C20 (parameters)**.  Whenever `create_dummy_in_mem_geff` accepts a parameter record whose
+requested property names are pairwise distinct, the result has exactly the requested number of
+nodes with the requested id dtype, the requested directedness, an edge list satisfying `EdgesSpec`,
+exactly the requested axes, and its node / edge property dicts are — in order — the axis
+coordinates, the requested extra properties (requested dtype, or the caller's array untouched), a
+var-length property iff requested, a sparse property iff requested (of node resp. **edge** length);
+the props metadata describes exactly these properties. -/
+theorem C20_params (p : Params) (g : Geff) (h : createDummyInMemGeff p = .ok g)
+    (hn : (nodeNames p).Nodup) (he : (edgeNames p).Nodup) :
+    g.numNodes = p.numNodes ∧ g.idDtype = npName p.idDtype ∧ g.directed = p.directed ∧
+    (∃ es, g.edges = es.map cast ∧ EdgesSpec p.directed p.numNodes p.numEdges es) ∧
+    g.axes.map (·.name) = axisNames p ∧
+    (∃ ax xn, g.nodeProps = ax ++ xn ++ (if p.vl then [("var_length", varLengthProp p.numNodes)] else [])
+                                   ++ (if p.ms then [("sparse_prop", sparseProp p.numNodes)] else []) ∧
+        List.Forall₂ (AxisProp p) (axisNames p) ax ∧
+        List.Forall₂ (Requested p.numNodes) (itemsOf p.extraNode) xn) ∧
+    (∃ xe, g.edgeProps = xe ++ (if p.ms then [("sparse_prop", sparseProp g.edges.length)] else []) ∧
+        List.Forall₂ (Requested g.edges.length) (itemsOf p.extraEdge) xe) ∧
+    Describes g.nodeMeta g.nodeProps ∧ Describes g.edgeMeta g.edgeProps := by
+  obtain ⟨es, xn, xe, hgen, _, _, hxn, hxe, rfl⟩ := createDummy_ok h
+  have hxn' := extraTriples_ok hxn
+  have hxe' := extraTriples_ok hxe
+  obtain ⟨es', hes', hspec⟩ := C20_edges p.directed p.numNodes p.numEdges
+  have hes : es = es'.map cast := by rw [hes'] at hgen; cases hgen; rfl
+  -- the pushed triples, and their names
+  have hnames_n : (axisTriples p ++ xn ++ vlTriples p ++ msTriples p.ms p.numNodes).map (·.1) = nodeNames p := by
+    simp only [List.map_append, axisTriples_names, forall₂_names hxn', nodeNames, vlTriples, msTriples]
+    cases p.vl <;> cases p.ms <;> rfl
+  have hnames_e : (xe ++ msTriples p.ms es.length).map (·.1) = edgeNames p := by
+    simp only [List.map_append, forall₂_names hxe', edgeNames, msTriples]
+    cases p.ms <;> rfl
+  have hpn := pushAll_props_of_nodup {} (axisTriples p ++ xn ++ vlTriples p ++ msTriples p.ms p.numNodes)
+    (by rw [hnames_n]; simpa [dictKeys] using hn)
+  have hpe := pushAll_props_of_nodup {} (xe ++ msTriples p.ms es.length)
+    (by rw [hnames_e]; simpa [dictKeys] using he)
+  have hmn : metaDict (pushAll {} (axisTriples p ++ xn ++ vlTriples p ++ msTriples p.ms p.numNodes)).metas
+      = (axisTriples p ++ xn ++ vlTriples p ++ msTriples p.ms p.numNodes).map tripleMeta := by
+    rw [pushAll_metas]
+    apply metaDict_of_nodup
+    have : (fun x : String × MetaOut => x.1) ∘ tripleMeta = fun t : Triple => t.1 := rfl
+    simp only [List.nil_append, List.map_map, this]
+    rw [hnames_n]; exact hn
+  have hme : metaDict (pushAll {} (xe ++ msTriples p.ms es.length)).metas
+      = (xe ++ msTriples p.ms es.length).map tripleMeta := by
+    rw [pushAll_metas]
+    apply metaDict_of_nodup
+    have : (fun x : String × MetaOut => x.1) ∘ tripleMeta = fun t : Triple => t.1 := rfl
+    simp only [List.nil_append, List.map_map, this]
+    rw [hnames_e]; exact he
+  have hdesc_x : ∀ {len : Nat} {items : List (Option String × Req)} {ts : List Triple},
+      List.Forall₂ (fun it t => stepOut len it = .ok t) items ts →
+      ∀ t ∈ ts, DescribesOne (tripleMeta t) (tripleProp t) := by
+    intro len items ts hf
+    induction hf with
+    | nil => intro t ht; cases ht
+    | cons hs _ ih =>
+      intro t ht
+      rcases List.mem_cons.1 ht with rfl | ht
+      · obtain ⟨_, _, h3, _, h5, h6, _⟩ := stepOut_ok hs
+        exact ⟨rfl, by simp [tripleMeta, tripleProp, h3, h6], fun _ => h5⟩
+      · exact ih t ht
+  have hdesc_ax : ∀ t ∈ axisTriples p, DescribesOne (tripleMeta t) (tripleProp t) := by
+    intro t ht
+    have hone : ∀ name unit dtype values,
+        DescribesOne (tripleMeta (axisTriple p.numNodes name unit dtype values))
+          (tripleProp (axisTriple p.numNodes name unit dtype values)) := by
+      intro name unit dtype values
+      simp [DescribesOne, tripleMeta, tripleProp, axisTriple]
+    simp only [axisTriples, List.mem_append] at ht
+    rcases ht with ((ht | ht) | ht) | ht <;> split at ht <;> simp only [List.mem_singleton, List.not_mem_nil] at ht <;>
+      subst ht <;> exact hone _ _ _ _
+  refine ⟨rfl, rfl, rfl, ⟨es', hes, hspec⟩, ?_, ?_, ?_, ?_, ?_⟩
+  · show (axisOuts p).map (·.name) = axisNames p
+    unfold axisOuts axisNames
+    cases p.t <;> cases p.z <;> cases p.y <;> cases p.x <;> rfl
+  · refine ⟨(axisTriples p).map tripleProp, xn.map tripleProp, ?_, axisTriples_spec p, requested_of_stepOut hxn'⟩
+    show (pushAll {} _).props = _
+    rw [hpn]
+    simp only [List.map_append, vlTriples, msTriples]
+    cases p.vl <;> cases p.ms <;> simp [tripleProp, varLengthTriple, sparseTriple]
+  · refine ⟨xe.map tripleProp, ?_, ?_⟩
+    · show (pushAll {} _).props = _
+      rw [hpe]
+      simp only [List.map_append, msTriples, assemble]
+      cases p.ms <;> simp [tripleProp, sparseTriple]
+    · simpa [assemble] using requested_of_stepOut hxe'
+  · show Describes (metaDict _) (pushAll {} _).props
+    rw [hmn, hpn]
+    apply describes_map
+    intro t ht
+    simp only [List.mem_append] at ht
+    rcases ht with ((ht | ht) | ht) | ht
+    · exact hdesc_ax t ht
+    · exact hdesc_x hxn' t ht
+    · unfold vlTriples at ht
+      split at ht <;> simp only [List.mem_singleton, List.not_mem_nil] at ht
+      subst ht; simp [DescribesOne, tripleMeta, tripleProp, varLengthTriple, varLengthProp]
+    · unfold msTriples at ht
+      split at ht <;> simp only [List.mem_singleton, List.not_mem_nil] at ht
+      subst ht; simp [DescribesOne, tripleMeta, tripleProp, sparseTriple, sparseProp, sparseMeta]
+  · show Describes (metaDict _) (pushAll {} _).props
+    rw [hme, hpe]
+    apply describes_map
+    intro t ht
+    simp only [List.mem_append] at ht
+    rcases ht with ht | ht
+    · exact hdesc_x hxe' t ht
+    · unfold msTriples at ht
+      split at ht <;> simp only [List.mem_singleton, List.not_mem_nil] at ht
+      subst ht; simp [DescribesOne, tripleMeta, tripleProp, sparseTriple, sparseProp, sparseMeta]
+
+
+/-! ### statements that need no assumption on the requested names -/
+
+theorem mem_vlTriples {p : Params} {t : Triple} (h : t ∈ vlTriples p) : p.vl = true ∧ t = varLengthTriple p.numNodes := by
+  unfold vlTriples at h
+  split at h <;> simp only [List.mem_singleton, List.not_mem_nil] at h
+  exact ⟨by assumption, h⟩
+
+theorem mem_msTriples {ms : Bool} {k : Nat} {t : Triple} (h : t ∈ msTriples ms k) : ms = true ∧ t = sparseTriple k := by
+  unfold msTriples at h
+  split at h <;> simp only [List.mem_singleton, List.not_mem_nil] at h
+  exact ⟨by assumption, h⟩
+
+theorem mem_axisTriples {p : Params} {t : Triple} (h : t ∈ axisTriples p) :
+    ∃ name unit dtype values, t = axisTriple p.numNodes name unit dtype values := by
+  simp only [axisTriples, List.mem_append] at h
+  rcases h with ((h | h) | h) | h <;> split at h <;> simp only [List.mem_singleton, List.not_mem_nil] at h <;>
+    exact ⟨_, _, _, _, h⟩
+
+theorem mem_of_forall₂ {len : Nat} {items : List (Option String × Req)} {ts : List Triple}
+    (h : List.Forall₂ (fun it t => stepOut len it = .ok t) items ts) {t : Triple} (ht : t ∈ ts) :
+    ∃ it ∈ items, stepOut len it = .ok t := by
+  induction h with
+  | nil => cases ht
+  | cons hs _ ih =>
+    rcases List.mem_cons.1 ht with rfl | ht
+    · exact ⟨_, by simp, hs⟩
+    · obtain ⟨it, hit, h⟩ := ih ht
+      exact ⟨it, by simp [hit], h⟩
+
+/-- where a property of the result comes from -/
+theorem origin_node {p : Params} {xn : List Triple}
+    (hxn : List.Forall₂ (fun it t => stepOut p.numNodes it = .ok t) (itemsOf p.extraNode) xn)
+    {kv : String × PropOut}
+    (h : kv ∈ (pushAll {} (axisTriples p ++ xn ++ vlTriples p ++ msTriples p.ms p.numNodes)).props) :
+    (kv.2.len = p.numNodes ∧ kv.2.varlength = false ∧ kv.2.missing = none) ∨
+    (p.vl = true ∧ kv = ("var_length", varLengthProp p.numNodes)) ∨
+    (p.ms = true ∧ kv = ("sparse_prop", sparseProp p.numNodes)) := by
+  rcases mem_pushAll_props _ _ _ h with h | ⟨t, ht, rfl⟩
+  · cases h
+  · simp only [List.mem_append] at ht
+    rcases ht with ((ht | ht) | ht) | ht
+    · obtain ⟨name, unit, dtype, values, rfl⟩ := mem_axisTriples ht
+      exact Or.inl ⟨rfl, rfl, rfl⟩
+    · obtain ⟨it, _, hs⟩ := mem_of_forall₂ hxn ht
+      obtain ⟨_, h2, h3, h4, _⟩ := stepOut_ok hs
+      exact Or.inl ⟨h2, h3, h4⟩
+    · obtain ⟨hv, rfl⟩ := mem_vlTriples ht
+      exact Or.inr (Or.inl ⟨hv, rfl⟩)
+    · obtain ⟨hm, rfl⟩ := mem_msTriples ht
+      exact Or.inr (Or.inr ⟨hm, rfl⟩)
+
+theorem origin_edge {ms : Bool} {E : Nat} {items : List (Option String × Req)} {xe : List Triple}
+    (hxe : List.Forall₂ (fun it t => stepOut E it = .ok t) items xe) {kv : String × PropOut}
+    (h : kv ∈ (pushAll {} (xe ++ msTriples ms E)).props) :
+    (kv.2.len = E ∧ kv.2.varlength = false ∧ kv.2.missing = none) ∨
+    (ms = true ∧ kv = ("sparse_prop", sparseProp E)) := by
+  rcases mem_pushAll_props _ _ _ h with h | ⟨t, ht, rfl⟩
+  · cases h
+  · simp only [List.mem_append] at ht
+    rcases ht with ht | ht
+    · obtain ⟨it, _, hs⟩ := mem_of_forall₂ hxe ht
+      obtain ⟨_, h2, h3, h4, _⟩ := stepOut_ok hs
+      exact Or.inl ⟨h2, h3, h4⟩
+    · obtain ⟨hm, rfl⟩ := mem_msTriples ht
+      exact Or.inr ⟨hm, rfl⟩
+
+/-- **C20 (lengths)** — no assumption on names: every node property has one entry per node and every
+edge property one entry per edge (what `write_arrays` and the structural validator require). -/
+theorem C20_lengths (p : Params) (g : Geff) (h : createDummyInMemGeff p = .ok g) :
+    (∀ kv ∈ g.nodeProps, kv.2.len = g.numNodes) ∧ (∀ kv ∈ g.edgeProps, kv.2.len = g.edges.length) := by
+  obtain ⟨es, xn, xe, _, _, _, hxn, hxe, rfl⟩ := createDummy_ok h
+  constructor
+  · intro kv hkv
+    rcases origin_node (extraTriples_ok hxn) hkv with h | ⟨_, rfl⟩ | ⟨_, rfl⟩
+    · exact h.1
+    · rfl
+    · rfl
+  · intro kv hkv
+    rcases origin_edge (extraTriples_ok hxe) hkv with h | ⟨_, rfl⟩
+    · exact h.1
+    · rfl
+
+/-- **C20 (var-length iff requested)** — no assumption on names. -/
+theorem C20_varlength_iff (p : Params) (g : Geff) (h : createDummyInMemGeff p = .ok g) :
+    (∃ kv ∈ g.nodeProps ++ g.edgeProps, kv.2.varlength = true) ↔ p.vl = true := by
+  obtain ⟨es, xn, xe, _, _, _, hxn, hxe, rfl⟩ := createDummy_ok h
+  constructor
+  · rintro ⟨kv, hkv, hv⟩
+    rcases List.mem_append.1 hkv with hkv | hkv
+    · rcases origin_node (extraTriples_ok hxn) hkv with h | ⟨hvl, _⟩ | ⟨_, rfl⟩
+      · rw [h.2.1] at hv; cases hv
+      · exact hvl
+      · cases hv
+    · rcases origin_edge (extraTriples_ok hxe) hkv with h | ⟨_, rfl⟩
+      · rw [h.2.1] at hv; cases hv
+      · cases hv
+  · intro hvl
+    refine ⟨("var_length", varLengthProp p.numNodes), List.mem_append_left _ ?_, rfl⟩
+    show _ ∈ (pushAll {} _).props
+    rw [pushAll_append, pushAll_append]
+    have h1 : ("var_length", varLengthProp p.numNodes) ∈ (pushAll (pushAll {} (axisTriples p ++ xn)) (vlTriples p)).props := by
+      simp only [vlTriples, hvl, if_true, pushAll, List.foldl_cons, List.foldl_nil, Acc.push, varLengthTriple]
+      exact self_mem_dictSet _ _ _
+    unfold msTriples
+    split
+    · simp only [pushAll, List.foldl_cons, List.foldl_nil, Acc.push, sparseTriple]
+      exact mem_dictSet_of_ne h1 (by show "var_length" ≠ "sparse_prop"; decide)
+    · exact h1
+
+/-- **C20 (sparse iff requested)** — no assumption on names: a property bears a missing mask only if
+it is the var-length property (when requested) or the sparse property (when requested); and when
+`include_missing` is set both the node side and the edge side carry `sparse_prop`, every other
+entry missing, of node resp. edge length. -/
+theorem C20_sparse_iff (p : Params) (g : Geff) (h : createDummyInMemGeff p = .ok g) :
+    (∀ kv ∈ g.nodeProps, kv.2.missing ≠ none →
+        (p.vl = true ∧ kv = ("var_length", varLengthProp p.numNodes)) ∨
+        (p.ms = true ∧ kv = ("sparse_prop", sparseProp p.numNodes))) ∧
+    (∀ kv ∈ g.edgeProps, kv.2.missing ≠ none → p.ms = true ∧ kv = ("sparse_prop", sparseProp g.edges.length)) ∧
+    (p.ms = true → ("sparse_prop", sparseProp p.numNodes) ∈ g.nodeProps ∧
+                   ("sparse_prop", sparseProp g.edges.length) ∈ g.edgeProps) := by
+  obtain ⟨es, xn, xe, _, _, _, hxn, hxe, rfl⟩ := createDummy_ok h
+  refine ⟨?_, ?_, ?_⟩
+  · intro kv hkv hm
+    rcases origin_node (extraTriples_ok hxn) hkv with h | h | h
+    · exact absurd h.2.2 hm
+    · exact Or.inl h
+    · exact Or.inr h
+  · intro kv hkv hm
+    rcases origin_edge (extraTriples_ok hxe) hkv with h | h
+    · exact absurd h.2.2 hm
+    · exact h
+  · intro hms
+    constructor
+    · show _ ∈ (pushAll {} _).props
+      rw [pushAll_append]
+      simp only [msTriples, hms, if_true, pushAll, List.foldl_cons, List.foldl_nil, Acc.push, sparseTriple]
+      exact self_mem_dictSet _ _ _
+    · show _ ∈ (pushAll {} _).props
+      rw [pushAll_append]
+      simp only [msTriples, hms, if_true, pushAll, List.foldl_cons, List.foldl_nil, Acc.push, sparseTriple, assemble]
+      exact self_mem_dictSet _ _ _
+
+/-! ### the forwarding helpers and the store -/
+
+/-- `create_mock_geff` forwards all thirteen parameters: it succeeds exactly when the inner
+generator and the write succeed, and returns the inner generator's geff. -/
+theorem createMock_ok_iff (ok : Bool) (p : Params) (w : Written) (g : Geff) :
+    createMockGeff ok p = .ok (w, g) ↔ createDummyInMemGeff p = .ok g ∧ writeArrays ok g = .ok w := by
+  unfold createMockGeff
+  show (match createDummyInMemGeff p with
+        | .valueError => _ | .other e => _ | .ok g => _) = _ ↔ _
+  cases hd : createDummyInMemGeff p with
+  | valueError => simp
+  | other e => simp
+  | ok g' =>
+    simp only
+    cases hw : writeArrays ok g' with
+    | valueError => simp; intro hg; subst hg; simp [hw]
+    | other e => simp; intro hg; subst hg; simp [hw]
+    | ok w' =>
+      simp only [Outcome.ok.injEq, Prod.mk.injEq]
+      constructor
+      · rintro ⟨rfl, rfl⟩; exact ⟨rfl, hw⟩
+      · rintro ⟨rfl, hw'⟩; rw [hw] at hw'; cases hw'; exact ⟨rfl, rfl⟩
+
+/-- what has to hold of an in-memory geff for `write_arrays` / `read_to_memory` to round-trip it
+(the hypotheses of C01) and for it to be graph-valid (C12): property lengths, unique names, node ids
+`0..n-1` (unique by construction), endpoints among them, no self / repeated edge. -/
+def WritePre (directed : Bool) (g : Geff) : Prop :=
+  (∀ kv ∈ g.nodeProps, kv.2.len = g.numNodes) ∧ (∀ kv ∈ g.edgeProps, kv.2.len = g.edges.length) ∧
+  (dictKeys g.nodeProps).Nodup ∧ (dictKeys g.edgeProps).Nodup ∧
+  ∃ es : List (Nat × Nat), g.edges = es.map cast ∧
+    (∀ e ∈ es, e.1 < g.numNodes ∧ e.2 < g.numNodes ∧ e.1 ≠ e.2) ∧ (es.map (key directed)).Nodup
+
+/-- **C20 (store = in-memory geff)**.  Whatever `create_mock_geff` returns, the geff handed to
+`write_arrays` *is* the returned in-memory geff, that geff is the one the inner generator builds for
+the **same thirteen parameters**, and it satisfies the preconditions under which writing and reading
+back is the identity (C01) and graph validation succeeds (C12). -/
+theorem C20_store_eq_memory (ok : Bool) (p : Params) (w : Written) (g : Geff)
+    (h : createMockGeff ok p = .ok (w, g)) :
+    w.geff = g ∧ createDummyInMemGeff p = .ok g ∧ WritePre p.directed g := by
+  obtain ⟨hd, hw⟩ := (createMock_ok_iff ok p w g).1 h
+  refine ⟨?_, hd, ?_⟩
+  · unfold writeArrays at hw
+    split at hw
+    · cases hw
+    · cases hw; rfl
+  · obtain ⟨hl1, hl2⟩ := C20_lengths p g hd
+    obtain ⟨es, xn, xe, hgen, _, _, _, _, rfl⟩ := createDummy_ok hd
+    obtain ⟨es', hes', hspec⟩ := C20_edges p.directed p.numNodes p.numEdges
+    have hes : es = es'.map cast := by rw [hes'] at hgen; cases hgen; rfl
+    exact ⟨hl1, hl2, nodup_keys_pushAll _ _ List.nodup_nil, nodup_keys_pushAll _ _ List.nodup_nil,
+      es', hes, hspec.2.1, hspec.2.2⟩
+
+/-- … and `create_mock_geff` accepts whatever the inner generator accepts, except — on a tree where
+defect D15 is unrepaired (`ok = false`) — a var-length property on an empty node set. -/
+theorem C20_mock_accepts (ok : Bool) (p : Params) (g : Geff) (h : createDummyInMemGeff p = .ok g)
+    (hok : ok = true ∨ p.numNodes ≠ 0 ∨ p.vl = false) :
+    createMockGeff ok p = .ok (⟨g⟩, g) := by
+  rw [createMock_ok_iff]
+  refine ⟨h, ?_⟩
+  unfold writeArrays
+  split
+  · rename_i hc
+    simp only [Bool.and_eq_true, Bool.not_eq_eq_eq_not, Bool.not_true, beq_iff_eq, List.any_eq_true] at hc
+    obtain ⟨⟨hok', hn⟩, kv, hkv, hv⟩ := hc
+    have hvl := (C20_varlength_iff p g h).1 ⟨kv, List.mem_append_left _ hkv, hv⟩
+    have hnn : g.numNodes = p.numNodes := by
+      obtain ⟨es, xn, xe, _, _, _, _, _, rfl⟩ := createDummy_ok h; rfl
+    rcases hok with h1 | h1 | h1
+    · rw [h1] at hok'; cases hok'
+    · exact absurd (hnn ▸ hn) h1
+    · rw [h1] at hvl; cases hvl
+  · rfl
+
+/-- the excluded case is real (defect D15, recorded as a known finding until the C01 repair lands):
+on an unrepaired tree `create_mock_geff(num_nodes=0, include_varlength=True)` raises `IndexError`
+although `create_dummy_in_mem_geff` accepts the same parameters. -/
+theorem C20_counterexample_empty_varlength :
+    createMockGeff false { idDtype := "uint8", timeDtype := "float64", posDtype := "float64",
+                           directed := true, numNodes := 0, numEdges := 0, vl := true }
+      = .other "IndexError" := by decide
+
+/-- the four convenience wrappers are `create_mock_geff` on fixed parameter records -/
+theorem C20_wrappers (ok : Bool) (n m : Nat) (d : Bool) :
+    createSimple2dGeff ok n m d = createMockGeff ok (simpleParams n m d false true true) ∧
+    createSimple3dGeff ok n m d = createMockGeff ok (simpleParams n m d true true true) ∧
+    createSimpleTemporalGeff ok n m d = createMockGeff ok (simpleParams n m d false false false) ∧
+    nodeNames (simpleParams n m d false true true) = ["t", "y", "x"] ∧
+    nodeNames (simpleParams n m d true true true) = ["t", "z", "y", "x"] ∧
+    nodeNames (simpleParams n m d false false false) = ["t"] ∧
+    (∀ z y x, edgeNames (simpleParams n m d z y x) = ["score", "color"]) :=
+  ⟨rfl, rfl, rfl, rfl, rfl, rfl, fun _ _ _ => rfl⟩
+
+/-- `create_empty_geff`: no nodes, no edges, no axes, no properties — for either directedness -/
+theorem C20_empty (ok d : Bool) :
+    createEmptyGeff ok d =
+      .ok (⟨{ numNodes := 0, idDtype := "uint64", edges := [], directed := d, axes := [],
+              nodeProps := [], edgeProps := [], nodeMeta := [], edgeMeta := [] }⟩,
+           { numNodes := 0, idDtype := "uint64", edges := [], directed := d, axes := [],
+             nodeProps := [], edgeProps := [], nodeMeta := [], edgeMeta := [] }) := by
+  cases ok <;> cases d <;> decide
+
+/-! ### the forwarding, read off the source (translator T9b → `Gen.MockForward`) -/
+
+/-- **C20 (forwarding, on the source text)**: `create_mock_geff` has the same parameters with the
+same defaults as `create_dummy_in_mem_geff` and passes *every one of them* on under its own name —
+the statement whose failure was the `include_missing` defect.  `decide` on the table regenerated
+from the working tree. -/
+theorem C20_forwarding_source :
+    Gen.MockForward.translationOk = true ∧
+    Gen.MockForward.mockParams = Gen.MockForward.innerParams ∧
+    Gen.MockForward.mockDefaults = Gen.MockForward.innerDefaults ∧
+    Gen.MockForward.mockCall = Gen.MockForward.innerParams.map (fun k => (k, k)) := by decide
+
+def pyBool (b : Bool) : String := if b then "True" else "False"
+
+/-- the keyword arguments a `create_simple_*` wrapper passes, as the model's `simpleParams` states
+them (left: Python keyword / right: Python expression) -/
+def simpleCall (z y x : Bool) : List (String × String) :=
+  [("node_id_dtype", "'uint'"), ("node_axis_dtypes", "{'position': 'float64', 'time': 'float64'}"),
+   ("directed", "directed"), ("num_nodes", "num_nodes"), ("num_edges", "num_edges"),
+   ("extra_edge_props", "{'score': 'float64', 'color': 'int'}"),
+   ("include_t", "True"), ("include_z", pyBool z), ("include_y", pyBool y), ("include_x", pyBool x)]
+
+/-- the wrappers in the source are the parameter records of the model (`simpleParams`,
+`createEmptyGeff`); everything not passed falls back to the defaults, which are the model's
+(`Params` field defaults: 5, 4, none, none, true ×4, false ×2). -/
+theorem C20_wrappers_source :
+    Gen.MockForward.wrappers =
+      [("create_simple_2d_geff", ["num_nodes", "num_edges", "directed"], simpleCall false true true),
+       ("create_simple_3d_geff", ["num_nodes", "num_edges", "directed"], simpleCall true true true),
+       ("create_simple_temporal_geff", ["num_nodes", "num_edges", "directed"], simpleCall false false false),
+       ("create_empty_geff", ["directed"],
+        [("node_id_dtype", "'uint'"), ("node_axis_dtypes", "{'position': 'float64', 'time': 'float64'}"),
+         ("directed", "directed"), ("num_nodes", "0"), ("num_edges", "0"),
+         ("include_t", "False"), ("include_z", "False"), ("include_y", "False"), ("include_x", "False")])] ∧
+    Gen.MockForward.innerDefaults =
+      [("num_nodes", "5"), ("num_edges", "4"), ("extra_node_props", "None"), ("extra_edge_props", "None"),
+       ("include_t", "True"), ("include_z", "True"), ("include_y", "True"), ("include_x", "True"),
+       ("include_varlength", "False"), ("include_missing", "False")] := by decide
+
+/-- Non-vacuity of `C20_params` / `C20_store_eq_memory`: a record with every kind of request (axes
+subset, generated and caller-supplied extra properties, var-length and sparse property, more edges
+requested than possible) is accepted, with pairwise distinct names. -/
+def demo : Params :=
+  { idDtype := "uint8", timeDtype := "float32", posDtype := "double", directed := false,
+    numNodes := 3, numEdges := 7, z := false, vl := true, ms := true,
+    extraNode := .dict [(some "label", .auto "str"), (some "score", .arr "float64" 3 0)],
+    extraEdge := .dict [(some "w", .auto "int8")] }
+
+def isOk {α : Type} : Outcome α → Bool
+  | .ok _ => true
+  | _ => false
+
+example : isOk (createMockGeff false demo) = true := by decide
+example : (nodeNames demo).Nodup ∧ (edgeNames demo).Nodup := by decide
 
 end GeffProps.C20
